@@ -301,6 +301,9 @@ fn short_hash(s: &str) -> String {
     format!("{:012x}", h & 0xffff_ffff_ffff)
 }
 
+fn thorough_tier() -> bool {
+    std::env::args().any(|a| a == "thorough")
+}
 fn args_ops_all() -> bool {
     std::env::var("SQV_C02_ALL_OPS").is_ok()
 }
@@ -475,7 +478,9 @@ fn run_one(cx: &mut Ctx, it: &Item, out: &mut Buf) {
     // a panic inside the grammar (before root_parse's apply) is not in the model's domain
     let grammar_panicked = p.result.is_err() && p.root.is_none() && si != ei;
     let limit = 260;
-    if tokens.len() <= limit && !grammar_panicked {
+    // thorough tier: every other input is replayed through Coq (all are observed directly)
+    let sampled = !thorough_tier() || short_hash(&it.sql).as_bytes()[10] % 2 == 0;
+    if tokens.len() <= limit && !grammar_panicked && sampled {
         let args = g_tuple(&[g_list(tokens.iter().map(g_tok)), gm_g]);
         let exp = g_tuple(&[g_bool(wf_ok), exp_g]);
         let nontrivial = root_mr.map(|m| mr_size(m) >= 3).unwrap_or(false);
